@@ -21,6 +21,7 @@ type finding struct {
 	Clause string `json:"clause"` // monitor clause or diverging projection
 	Tags   string `json:"tags"`   // token tags of the step
 	Grid   bool   `json:"grid"`   // the case ran on the grid buffer
+	Alt    bool   `json:"alt"`    // the alternate buffer was active after the step
 	Detail string `json:"detail"`
 }
 
